@@ -130,10 +130,11 @@ def run(ctx):
 
     # 1. model checking + behaviour emission
     if quick:
-        covers = [{"MaxReq": "2", "KCover": "1", "Statuses": "{200}", "JailChoices": "{FALSE}"}]
+        covers = [{"MaxReq": "2", "KCover": "1", "Statuses": "{200}", "JailChoices": "{FALSE}", "DefinedChoices": "SomeAbsent"}]
     else:
         covers = [{"MaxReq": "3", "KCover": "2", "Statuses": "{200, 500}", "JailChoices": "{FALSE}"},
-                  {"MaxReq": "3", "KCover": "1", "Statuses": "{200}", "JailChoices": "{FALSE, TRUE}"}]
+                  {"MaxReq": "3", "KCover": "1", "Statuses": "{200}", "JailChoices": "{FALSE, TRUE}"},
+                  {"MaxReq": "2", "KCover": "2", "Statuses": "{200}", "JailChoices": "{FALSE}", "DefinedChoices": "SomeAbsent"}]
     beh_files = []
     for defs in covers:
         m = ctx.tlc("Lifecycle", defines=defs, timeout=1500, tag="cover")
@@ -143,7 +144,8 @@ def run(ctx):
         beh_files.append(m.beh_path)
     # seeded simulation for depth beyond the cover
     sim = ctx.tlc("Lifecycle", cfg="LifecycleSim.cfg", simulate=(400 if quick else 6000), depth=60,
-                  defines={"MaxReq": "3", "KCover": "0", "Statuses": "{200, 500}", "JailChoices": "{FALSE, TRUE}"},
+                  defines={"MaxReq": "3", "KCover": "0", "Statuses": "{200, 500}", "JailChoices": "{FALSE, TRUE}",
+                           "DefinedChoices": "SomeAbsent"},
                   timeout=900, tag="simulate")
     beh_files.append(sim.beh_path)
     allb = os.path.join(ctx.work, "all_beh.jsonl")
